@@ -11,6 +11,7 @@ import (
 	"os"
 	"os/exec"
 	"strconv"
+	"strings"
 	"time"
 )
 
@@ -108,8 +109,13 @@ func runBatch(path string) {
 			stop = true
 		} else {
 			s := string(outb)
-			if len(s) > 12000 {
-				s = s[len(s)-12000:]
+			if i := strings.Index(s, "panic:"); i >= 0 {
+				s = s[i:]
+			} else if i := strings.Index(s, "fatal error:"); i >= 0 {
+				s = s[i:]
+			}
+			if len(s) > 9000 {
+				s = s[:9000]
 			}
 			rec["crash"] = s
 			stop = true
